@@ -39,9 +39,9 @@ namespace igris
             ::sline_newdata(&sl, data, sz);
         }
 
-        void newdata(char data)
+        int newdata(char data)
         {
-            ::sline_putchar(&sl, data);
+            return ::sline_putchar(&sl, data);
         }
 
         const char *getline() const
